@@ -10,4 +10,6 @@ AllStarts == {"none", "calc", "xmat", "xsel"}
 XSelStart == {"xsel"}
 SeededStarts == {"calc", "xmat"}
 FixOff == FALSE
+SwitchOn == TRUE
+OnlyIt1 == {"it1"}
 =============================================================================
